@@ -150,7 +150,40 @@ class Importance(CellModifierInput):
             raise ValueError("importance must be ≥ 0")
         if particle not in self._particle_importances:
             self._generate_default_cell_tree(particle)
+        self._unshare_tree(particle)
         self._particle_importances[particle]["data"][0].value = value
+
+    def _unshare_tree(self, particle):
+        """
+        Gives the particle its own syntax tree if it shares one with other particles.
+
+        The particles of one input like ``imp:n,p=1`` are parsed into one shared tree.
+        Before one of them is changed it has to be split off, or all of them would change.
+
+        :param particle: the particle that is about to be changed.
+        :type particle: Particle
+        """
+        tree = self._particle_importances[particle]
+        others = [
+            part
+            for part, other_tree in self._particle_importances.items()
+            if other_tree is tree and part != particle
+        ]
+        if not others:
+            return
+        new_tree = copy.deepcopy(tree)
+        # comments stay with the original input
+        new_tree["data"][-1].padding = syntax_node.PaddingNode(" ")
+        new_tree["classifier"].particles.particles = [particle]
+        tree["classifier"].particles.remove(particle)
+        # the new tree is written directly before the one it was split from
+        new_importances = {}
+        for part, other_tree in self._particle_importances.items():
+            if other_tree is tree and particle not in new_importances:
+                new_importances[particle] = new_tree
+            if part != particle:
+                new_importances[part] = other_tree
+        self._particle_importances = new_importances
 
     def __delitem__(self, particle):
         if not isinstance(particle, Particle):
